@@ -177,3 +177,26 @@ fn ipv4_display_stub_agrees_with_std() {
         assert_eq!(W(ip).to_string(), ip.to_string());
     }
 }
+
+/// The ASCII replacement for `str::to_lowercase` agrees with std on ASCII text:
+/// every string of up to 2 ASCII bytes, plus random ASCII strings up to 12 bytes.
+#[test]
+fn to_lowercase_stub_agrees_with_std_on_ascii() {
+    for a in 0..128u8 {
+        let s = [a];
+        let t = std::str::from_utf8(&s).unwrap();
+        assert_eq!(stub_to_lowercase_ascii(t), t.to_lowercase());
+        for b in 0..128u8 {
+            let s = [a, b];
+            let t = std::str::from_utf8(&s).unwrap();
+            assert_eq!(stub_to_lowercase_ascii(t), t.to_lowercase());
+        }
+    }
+    let mut r = Rng(0xDEADBEEF12345678);
+    for _ in 0..300_000 {
+        let n = (r.next() % 13) as usize;
+        let v: Vec<u8> = (0..n).map(|_| (r.next() % 128) as u8).collect();
+        let t = std::str::from_utf8(&v).unwrap();
+        assert_eq!(stub_to_lowercase_ascii(t), t.to_lowercase());
+    }
+}
